@@ -24,6 +24,7 @@ import CookModel.Lemmas.DiagPlaceInst
 import CookModel.Lemmas.DiagPlaceReport
 import CookModel.Lemmas.DiagSoundUsesNone2
 import CookModel.Lemmas.DiagNoticeSpans
+import CookModel.Lemmas.DiagEventExact2
 /-
   C07  Diagnostics are sound, complete and placed on the offending construct.
 
@@ -2671,5 +2672,228 @@ example : SimpleMods [⟨.at, ['@'], 5⟩] ∧ (foldMods Modifiers.empty [⟨.at
       [.error ⟨.error, .parse, "cookware-recipe-modifier", [⟨5, 6⟩]⟩] ∧
     (buildText 6 [⟨.word, ['x'], 6⟩]).isTextEmpty toyCharSpec = false :=
   ⟨by unfold SimpleMods; decide, rfl, rfl, by decide⟩
+
+/-! ### Event-level composition and placement (wave 5, item 3) -/
+
+/-- **An ingredient event, exactly.**  From EVERY collector state the whole ingredient event (`ingredient` of
+    the analysis pass: quantity conversion, then either the intermediate-reference branch or `resolve_reference`
+    followed by the reference checks, then the push) appends EXACTLY the list `c07v_ingredientEventDiags` — a
+    function of the event, the extension set / converter, and of the ingredient table, its location table, the
+    two modes and the current section of that state (not of its diagnostics): the scaling-lock warning; then,
+    with intermediate data `&(…)`, `inter-ref-conflicting-modifiers` and the intermediate-reference error
+    (`interRefDiags`); otherwise `refDiags` of `resolve_reference` and — when it resolved to a table entry — the
+    reference checks `c07r_ingrRefDiags` against that entry.  Consequently (for every predicate `p` on
+    diagnostics) the event raises a `p`-diagnostic iff the part that runs raises one, and in particular
+    * `reference-not-found` is raised IFF the ingredient has no intermediate data, is not `+`, is `&` or the
+      define mode is `steps`, and no earlier non-reference ingredient has the same folded name; it is then the
+      error (analysis) labelled with the component's span;
+    * `unnecessary-scaling-lock` is raised IFF the quantity carries `=` on a text value. -/
+theorem C07_ingredient_event_exact (env : Env) (input : Str) (li : Loc (PIngredient α)) (s : Col α) :
+    (ingredientA env input li s).2.diags.toList = s.diags.toList ++
+      c07v_ingredientEventDiags env input li s.ingredients s.locIngr s.defineMode s.duplicateMode
+        s.cur.content s.sections.length ∧
+    (∀ p : Diag → Prop,
+      (∃ d ∈ c07v_ingredientEventDiags env input li s.ingredients s.locIngr s.defineMode s.duplicateMode
+          s.cur.content s.sections.length, p d) ↔
+      ((∃ d ∈ c07v_ingrLockDiags li.val.quantity, p d) ∨
+       (∃ dd, li.val.inter = some dd ∧
+          ((∃ d ∈ c07v_interCheckDiags li.val li.val.modifiers.val, p d) ∨
+           (∃ d ∈ interRefDiags s.cur.content s.sections.length dd, p d))) ∨
+       (li.val.inter = none ∧
+          ((∃ d ∈ refDiags env c07v_ingrInherit (s.ingredients.toList.map (fun x => (x.name, x.modifiers)))
+              (c07v_igr0 env li s.defineMode).name li.val.modifiers.val li.span li.val.modifiers.span
+              s.defineMode s.duplicateMode, p d) ∨
+           (∃ d ∈ c07v_ingrRefCheckDiags env input li (c07v_igr0 env li s.defineMode) s.ingredients s.locIngr
+              (c07v_refResult env c07v_ingrInherit (s.ingredients.toList.map (fun x => (x.name, x.modifiers)))
+                (c07v_igr0 env li s.defineMode).name li.val.modifiers.val s.defineMode s.duplicateMode), p d))))) ∧
+    ((∃ d ∈ c07v_ingredientEventDiags env input li s.ingredients s.locIngr s.defineMode s.duplicateMode
+        s.cur.content s.sections.length, d.kind = "reference-not-found") ↔
+      (li.val.inter = none ∧ li.val.modifiers.val.contains Modifiers.NEW = false ∧
+       sameNameIdx env (s.ingredients.toList.map (fun x => (x.name, x.modifiers)))
+         (c07v_igr0 env li s.defineMode).name = none ∧
+       (li.val.modifiers.val.contains Modifiers.REF = true ∨ s.defineMode = .steps))) ∧
+    (∀ d ∈ c07v_ingredientEventDiags env input li s.ingredients s.locIngr s.defineMode s.duplicateMode
+        s.cur.content s.sections.length, d.kind = "reference-not-found" →
+      d = ⟨.error, .analysis, "reference-not-found", [li.span]⟩) ∧
+    ((∃ d ∈ c07v_ingredientEventDiags env input li s.ingredients s.locIngr s.defineMode s.duplicateMode
+        s.cur.content s.sections.length, d.kind = "unnecessary-scaling-lock") ↔
+      ∃ q, li.val.quantity = some q ∧ q.val.value.lock.isSome = true ∧ q.val.value.value.val.isText = true) := by
+  obtain ⟨k1, k2⟩ := c07v_ingredientEvent_notfound_iff env input li s.ingredients s.locIngr s.defineMode
+    s.duplicateMode s.cur.content s.sections.length
+  exact ⟨c07v_ingredientA_exact env input li s,
+    fun p => c07v_ingredientEvent_split env input li _ _ _ _ _ _ p, k1, k2,
+    (c07v_event_lock_iff env input).1 li _ _ _ _ _ _⟩
+
+/-- **A cookware event, exactly.**  From every collector state the whole cookware event appends EXACTLY
+    `c07v_cookwareEventDiags`: the scaling-lock warning (raised IFF the amount carries `=`: a lock never has an
+    effect on cookware), then `refDiags` of `resolve_reference` (container "cookware item", inheriting `-` and `?`),
+    then — when it resolved to a table entry — the reference checks `c07r_cwRefDiags` against that entry; and
+    `reference-not-found` is raised IFF the item is not `+`, is `&` or the define mode is `steps`, and no earlier
+    non-reference cookware item has the same folded name (then: error, analysis, labelled with the item's span). -/
+theorem C07_cookware_event_exact (env : Env) (input : Str) (lc : Loc (PCookware α)) (s : Col α) :
+    (cookwareA env input lc s).2.diags.toList = s.diags.toList ++
+      c07v_cookwareEventDiags env input lc s.cookware s.locCw s.defineMode s.duplicateMode ∧
+    (∀ p : Diag → Prop,
+      (∃ d ∈ c07v_cookwareEventDiags env input lc s.cookware s.locCw s.defineMode s.duplicateMode, p d) ↔
+      ((∃ d ∈ c07v_cwLockDiags lc.val.quantity, p d) ∨
+       (∃ d ∈ refDiags env c07v_cwInherit (s.cookware.toList.map (fun x => (x.name, x.modifiers)))
+          (lc.val.name.trimmed env.cs) lc.val.modifiers.val lc.span lc.val.modifiers.span
+          s.defineMode s.duplicateMode, p d) ∨
+       (∃ d ∈ c07v_cwRefCheckDiags input lc (c07v_cw0 env lc s.defineMode) s.cookware s.locCw
+          (c07v_refResult env c07v_cwInherit (s.cookware.toList.map (fun x => (x.name, x.modifiers)))
+            (lc.val.name.trimmed env.cs) lc.val.modifiers.val s.defineMode s.duplicateMode), p d))) ∧
+    ((∃ d ∈ c07v_cookwareEventDiags env input lc s.cookware s.locCw s.defineMode s.duplicateMode,
+        d.kind = "reference-not-found") ↔
+      (lc.val.modifiers.val.contains Modifiers.NEW = false ∧
+       sameNameIdx env (s.cookware.toList.map (fun x => (x.name, x.modifiers))) (lc.val.name.trimmed env.cs) = none ∧
+       (lc.val.modifiers.val.contains Modifiers.REF = true ∨ s.defineMode = .steps))) ∧
+    (∀ d ∈ c07v_cookwareEventDiags env input lc s.cookware s.locCw s.defineMode s.duplicateMode,
+      d.kind = "reference-not-found" → d = ⟨.error, .analysis, "reference-not-found", [lc.span]⟩) ∧
+    ((∃ d ∈ c07v_cookwareEventDiags env input lc s.cookware s.locCw s.defineMode s.duplicateMode,
+        d.kind = "unnecessary-scaling-lock") ↔ ∃ q, lc.val.quantity = some q ∧ q.val.lock.isSome = true) := by
+  obtain ⟨k1, k2⟩ := c07v_cookwareEvent_notfound_iff env input lc s.cookware s.locCw s.defineMode s.duplicateMode
+  exact ⟨c07v_cookwareA_exact env input lc s, fun p => c07v_cookwareEvent_split env input lc _ _ _ _ p, k1, k2,
+    (c07v_event_lock_iff env input).2 lc _ _ _ _⟩
+
+/-- **Placement of an event's diagnostics in the final report.**  Every event (all eleven kinds) only APPENDS to
+    the diagnostics.  Hence, in an event list `evs1 ++ ev :: evs2` without `Error` events, processed from any
+    state `s`: if `ev`, at the state reached after `evs1` (`c07v_runEvents`: the fold of `processEvent`), appends
+    the list `l`, then the final diagnostics are `s`'s, then what `evs1` added (`pre`), then `l` as a contiguous
+    block in order, then what `evs2` and the end of the loop (`meta-deprecated`) add (`post`).  And inside a step
+    block the list `l` of an ingredient / cookware / timer event is the exact event list
+    (`c07v_ingredientEventDiags`, `c07v_cookwareEventDiags`, `c07i_timerEventDiags`) read at that state. -/
+theorem C07_event_placement (env : Env) (input : Str) (evs1 evs2 : List (Ev α)) (ev : Ev α) (s : Col α) :
+    (∀ (ev' : Ev α) (s' : Col α), ∃ l, (processEvent env input ev' s').2.diags.toList = s'.diags.toList ++ l) ∧
+    (∀ l : List Diag, (∀ d, Ev.error d ∉ evs1 ++ ev :: evs2) →
+      (processEvent env input ev (c07v_runEvents env input evs1 s)).2.diags.toList =
+        (c07v_runEvents env input evs1 s).diags.toList ++ l →
+      ∃ pre post, (c07v_runEvents env input evs1 s).diags.toList = s.diags.toList ++ pre ∧
+        (parseEventsLoop env input (evs1 ++ ev :: evs2) s).diags.toList = s.diags.toList ++ pre ++ l ++ post) ∧
+    (∀ (s' : Col α) (items : List Item), s'.block = some (.step items) →
+      (∀ li, (processEvent env input (.ingredient li) s').2.diags.toList = s'.diags.toList ++
+        c07v_ingredientEventDiags env input li s'.ingredients s'.locIngr s'.defineMode s'.duplicateMode
+          s'.cur.content s'.sections.length) ∧
+      (∀ lc, (processEvent env input (.cookware lc) s').2.diags.toList = s'.diags.toList ++
+        c07v_cookwareEventDiags env input lc s'.cookware s'.locCw s'.defineMode s'.duplicateMode) ∧
+      (∀ lt, (processEvent env input (.timer lt) s').2.diags.toList = s'.diags.toList ++
+        c07i_timerEventDiags env lt)) :=
+  ⟨fun ev' s' => (c07v_DG_processEvent env input ev').out s',
+   fun l hne hl => c07v_event_placement env input evs1 evs2 ev s l hne hl,
+   fun s' items hb => ⟨fun li => c07v_processEvent_ingredient_step env input li s' items hb,
+     fun lc => c07v_processEvent_cookware_step env input lc s' items hb,
+     fun lt => c07v_processEvent_timer_step env input lt s' items hb⟩⟩
+
+/-- **A dangling ingredient reference placed anywhere in a step.**  The event list `evs1 ++ ingredient :: evs2`
+    contains no `Error` event (so the analysis runs to the end) and is processed from any state `s`; after `evs1`
+    the collector is inside a step block; the ingredient has no intermediate data, is not `+`, is `&` (or the define
+    mode reached is `steps`), and no non-reference ingredient collected so far has the same name under case
+    folding.  Then the final diagnostics are: those of `s`, what `evs1` added, then EXACTLY the event's list
+    `c07v_ingredientEventDiags` (read at the state after `evs1`), then what `evs2` and the end of the loop add; and
+    `reference-not-found` (error, analysis stage) labelled with the span of the whole component is in the final
+    report — whatever precedes and follows the component. -/
+theorem C07_reference_not_found_anywhere (env : Env) (input : Str) (evs1 evs2 : List (Ev α))
+    (li : Loc (PIngredient α)) (s : Col α) (items : List Item)
+    (hne : ∀ d, Ev.error d ∉ evs1 ++ Ev.ingredient li :: evs2)
+    (hb : (c07v_runEvents env input evs1 s).block = some (.step items))
+    (hi : li.val.inter = none) (hnew : li.val.modifiers.val.contains Modifiers.NEW = false)
+    (href : li.val.modifiers.val.contains Modifiers.REF = true ∨
+      (c07v_runEvents env input evs1 s).defineMode = .steps)
+    (hnone : ∀ (k : Nat) (ig : Ingredient (ScalableValue α)),
+      (c07v_runEvents env input evs1 s).ingredients[k]? = some ig →
+      ig.modifiers.contains Modifiers.REF = false → nameEq env (c07v_ingrName env li) ig.name = false) :
+    (∃ pre post, (parseEventsLoop env input (evs1 ++ Ev.ingredient li :: evs2) s).diags.toList =
+      s.diags.toList ++ pre ++
+        c07v_ingredientEventDiags env input li (c07v_runEvents env input evs1 s).ingredients
+          (c07v_runEvents env input evs1 s).locIngr (c07v_runEvents env input evs1 s).defineMode
+          (c07v_runEvents env input evs1 s).duplicateMode (c07v_runEvents env input evs1 s).cur.content
+          (c07v_runEvents env input evs1 s).sections.length ++ post) ∧
+    (⟨.error, .analysis, "reference-not-found", [li.span]⟩ : Diag) ∈
+      (parseEventsLoop env input (evs1 ++ Ev.ingredient li :: evs2) s).diags.toList :=
+  c07v_reference_not_found_anywhere env input evs1 evs2 li s items hne hb hi hnew href hnone
+
+/-- **Being inside a step** (discharges the block hypothesis of `C07_reference_not_found_anywhere` from the shape of
+    the event list): after any events `pre` that leave the define mode other than `text`, a `Start(Step)` event
+    and then any text / ingredient / cookware / timer events (`c07v_isStepInner`), the collector is inside a step
+    block — each such event keeps it there. -/
+theorem C07_inside_step (env : Env) (input : Str) (pre inner : List (Ev α)) (s : Col α)
+    (hdm : (c07v_runEvents env input pre s).defineMode ≠ .text)
+    (hall : ∀ ev ∈ inner, c07v_isStepInner ev = true) :
+    ∃ items, (c07v_runEvents env input (pre ++ Ev.start .step :: inner) s).block = some (.step items) :=
+  c07v_inside_step env input pre inner s hdm hall
+
+/-! non-vacuity.  `C07_evState`: a collector inside a step whose table holds the definition `@salt{1}` (made in a
+    step).  `C07_evRefSalt` = `@&salt{=x}(n)`: lock on a text value, a note, text against the numeric definition —
+    the event list is lock warning, `note-in-reference`, `text-value-in-ref`.  `C07_evRefPepper` = `@&pepper{}`: no
+    definition — exactly `reference-not-found` on the component's span.  `C07_evRefPan` = `#&pan{=2}`: lock warning
+    then `reference-not-found`.  And `Mix @salt{} … @&pepper{} … .` as an event list: the hypotheses of the placement
+    theorems hold. -/
+def C07_evSaltLoc : Loc (PIngredient Rat) :=
+  ⟨⟨⟨⟨0⟩, ⟨1, 1⟩⟩, none, C01_txt "salt" 1, none,
+    some ⟨⟨⟨⟨.number (.regular 1), ⟨6, 7⟩⟩, none⟩, none⟩, ⟨5, 8⟩⟩, none⟩, ⟨0, 8⟩⟩
+def C07_evState : Col Rat :=
+  { ingredients := #[⟨"salt".toList, none, some ⟨.linear (.number (.regular 1)), none⟩, none, none,
+      ⟨.definition [] true, none⟩, ⟨0⟩⟩],
+    locIngr := #[C07_evSaltLoc], block := some (.step [.ingredient 0]) }
+def C07_evRefSalt : Loc (PIngredient Rat) :=
+  ⟨⟨⟨⟨Modifiers.REF⟩, ⟨11, 12⟩⟩, none, C01_txt "salt" 12, none,
+    some ⟨⟨⟨⟨.text ['x'], ⟨18, 19⟩⟩, some ⟨17, 18⟩⟩, none⟩, ⟨16, 20⟩⟩, some (C01_txt "n" 21)⟩, ⟨10, 23⟩⟩
+def C07_evRefPepper : Loc (PIngredient Rat) :=
+  ⟨⟨⟨⟨Modifiers.REF⟩, ⟨31, 32⟩⟩, none, C01_txt "pepper" 32, none, none, none⟩, ⟨30, 40⟩⟩
+def C07_evRefPan : Loc (PCookware Rat) :=
+  ⟨⟨⟨⟨Modifiers.REF⟩, ⟨51, 52⟩⟩, C01_txt "pan" 52, none,
+    some ⟨⟨⟨.number (.regular 2), ⟨57, 58⟩⟩, some ⟨56, 57⟩⟩, ⟨56, 58⟩⟩, none⟩, ⟨50, 59⟩⟩
+
+example : c07v_ingredientEventDiags C01_toyEnv [] C07_evRefSalt C07_evState.ingredients C07_evState.locIngr
+      C07_evState.defineMode C07_evState.duplicateMode C07_evState.cur.content C07_evState.sections.length =
+    [⟨.warning, .analysis, "unnecessary-scaling-lock", [⟨18, 19⟩]⟩,
+     ⟨.error, .analysis, "note-in-reference", [⟨21, 22⟩, ⟨8, 8⟩]⟩,
+     ⟨.warning, .analysis, "text-value-in-ref", [⟨16, 20⟩, ⟨5, 8⟩]⟩] := by decide
+example : c07v_ingredientEventDiags C01_toyEnv [] C07_evRefPepper C07_evState.ingredients C07_evState.locIngr
+      C07_evState.defineMode C07_evState.duplicateMode C07_evState.cur.content C07_evState.sections.length =
+    [⟨.error, .analysis, "reference-not-found", [⟨30, 40⟩]⟩] := by decide
+example : c07v_cookwareEventDiags C01_toyEnv [] C07_evRefPan C07_evState.cookware C07_evState.locCw
+      C07_evState.defineMode C07_evState.duplicateMode =
+    [⟨.warning, .analysis, "unnecessary-scaling-lock", [⟨57, 58⟩]⟩,
+     ⟨.error, .analysis, "reference-not-found", [⟨50, 59⟩]⟩] := by decide
+
+/-- `Mix @salt{1}` … -/
+def C07_evBefore : List (Ev Rat) := [.start .step, .text (C01_txt "Mix " 0), .ingredient C07_evSaltLoc]
+/-- … ` well.` and the end of the step -/
+def C07_evAfter : List (Ev Rat) := [.text (C01_txt " well." 40), .stop .step]
+
+example : (∀ d, Ev.error d ∉ C07_evBefore ++ Ev.ingredient C07_evRefPepper :: C07_evAfter) ∧
+    (∃ items, (c07v_runEvents C01_toyEnv [] C07_evBefore {}).block = some (.step items)) ∧
+    C07_evRefPepper.val.inter = none ∧ C07_evRefPepper.val.modifiers.val.contains Modifiers.NEW = false ∧
+    C07_evRefPepper.val.modifiers.val.contains Modifiers.REF = true ∧
+    (∀ (k : Nat) (ig : Ingredient (ScalableValue Rat)),
+      (c07v_runEvents C01_toyEnv [] C07_evBefore {}).ingredients[k]? = some ig →
+      ig.modifiers.contains Modifiers.REF = false →
+      nameEq C01_toyEnv (c07v_ingrName C01_toyEnv C07_evRefPepper) ig.name = false) ∧
+    (processEvent C01_toyEnv [] (.ingredient C07_evRefPepper) (c07v_runEvents C01_toyEnv [] C07_evBefore {})).2.diags.toList =
+      (c07v_runEvents C01_toyEnv [] C07_evBefore {}).diags.toList ++
+        [⟨.error, .analysis, "reference-not-found", [⟨30, 40⟩]⟩] := by
+  have hI : (c07v_runEvents C01_toyEnv [] C07_evBefore {}).ingredients.toList.map (fun x => x.name) = ["salt".toList] := by
+    decide
+  refine ⟨?_, ⟨_, rfl⟩, rfl, by decide, by decide, ?_, by decide⟩
+  · intro d hd
+    simp [C07_evBefore, C07_evAfter] at hd
+  · intro k ig hk _
+    have hm : ig.name ∈ (c07v_runEvents C01_toyEnv [] C07_evBefore {}).ingredients.toList.map (fun x => x.name) :=
+      List.mem_map.2 ⟨ig, Array.mem_toList_iff.2 (Array.mem_of_getElem? hk), rfl⟩
+    rw [hI] at hm
+    simp only [List.mem_singleton] at hm
+    rw [hm]
+    decide
+
+/-! and the model run on that event list: the final report is exactly the one error, on the span of `@&pepper{}` -/
+example : (parseEvents C01_toyEnv [] (C07_evBefore ++ Ev.ingredient C07_evRefPepper :: C07_evAfter)).diags.toList =
+    [⟨.error, .analysis, "reference-not-found", [⟨30, 40⟩]⟩] := by decide
+example : (c07v_runEvents C01_toyEnv [] ([] : List (Ev Rat)) {}).defineMode ≠ .text ∧
+    (∀ ev ∈ [Ev.text (C01_txt "Mix " 0), Ev.ingredient C07_evSaltLoc], c07v_isStepInner ev = true) ∧
+    C07_evBefore = [] ++ Ev.start .step :: [Ev.text (C01_txt "Mix " 0), Ev.ingredient C07_evSaltLoc] := by
+  refine ⟨by decide, ?_, rfl⟩
+  intro ev hev
+  simp only [List.mem_cons, List.not_mem_nil, or_false] at hev
+  rcases hev with rfl | rfl <;> rfl
 
 end Cook
